@@ -746,7 +746,15 @@ func tripleToRow(t *triple.Triple, cls *semantic.GraphClause) (table.Row, error)
 	if cls.OIDAlias != "" {
 		n, err := o.Node()
 		if err == nil {
-			r[cls.OIDAlias] = &table.Cell{S: table.CellString(n.ID().String())}
+			c := &table.Cell{S: table.CellString(n.ID().String())}
+			r[cls.OIDAlias] = c
+			// Naming the ID after the object itself (?o ID ?o) replaces the node by
+			// its ID; any other reuse of the name has to agree on the value.
+			if cls.OIDAlias == cls.OBinding || cls.OIDAlias == cls.OAlias {
+				bnd[cls.OIDAlias] = c
+			} else if !validBinding(cls.OIDAlias, c) {
+				return nil, nil
+			}
 		} else {
 			var c *table.Cell
 			p, err := o.Predicate()
